@@ -92,7 +92,9 @@ var (
 	changeAt      []uint64
 	trace         []TraceEntry
 	blockedStreak int
-	blockedSince  int64 // wall time (ns) at which the current streak of failed tries began
+	blockedSince  int64  // wall time (ns) at which the current streak of failed tries began
+	seqSpins      uint64 // failed lock tries in a row outside a simulation (sequential phases)
+	seqSince      int64
 	overrun       bool
 	deadlock      bool
 	lockWaits     uint64
@@ -389,6 +391,7 @@ func switchTo(next int, site int) {
 //go:norace
 func Yield(site int) {
 	if !simActive {
+		seqSpins = 0
 		if CountSteps {
 			// (atomic: a library that fetches in parallel reaches this from several goroutines)
 			if n := atomic.AddUint64(&Steps, 1); StepLimit > 0 && n > StepLimit {
@@ -499,7 +502,18 @@ func YieldWaiting(site int) { yieldBlocked(site, true) }
 //go:norace
 func yieldBlocked(site int, soft bool) {
 	if !simActive {
-		// outside a simulation the TryLock loop degrades to a spin; be polite
+		// outside a simulation the TryLock loop degrades to a spin; be polite. A lock that a finished call
+		// never released shows here as a spin without end (nobody else is running): after two seconds of
+		// it with no scheduling point passed in between, that is reported like any other deadlock.
+		if !soft && !LibraryStartsGoroutines {
+			if seqSpins == 0 {
+				seqSince = time.Now().UnixNano()
+			}
+			seqSpins++
+			if seqSpins&1023 == 0 && time.Now().UnixNano()-seqSince > 2_000_000_000 && OnDeadlock != nil {
+				OnDeadlock([]int{site})
+			}
+		}
 		syscall.Syscall(syscall.SYS_SCHED_YIELD, 0, 0, 0)
 		return
 	}
